@@ -105,12 +105,27 @@ theorem coherent_step_partial (F : Fns) (hF : Lawful F) (s : St) (op : Op) (hc :
         · intro h'; exact ⟨by simp, (hc.gv_imp h').2⟩
       · intro hm; exact hc.dmNone (Or.inr hm)
     · exact hc
-  | produceFc =>
+  | generate k =>
+    simp only [step]
+    have hc' : Coherent F ⟨s.h, { s.o with dataset := none, disps := none }⟩ := by
+      obtain ⟨c1, c2, c3, c4, c5, c6, c7, c8, c9, c10⟩ := hc
+      exact ⟨c1, c2, by simp, c4, c5, by simp, c7, c8, c9, by simp⟩
+    have h2 := hc'.heap_congr (h' := s.h.alloc (F.gen k) true .ds) (Nat.le_succ _)
+      (fun a ha => ⟨alloc_cells_old (hc.allocFc a ha), alloc_kind_old (hc.allocFc a ha)⟩)
+      (fun a ha => ⟨alloc_cells_old (hc.allocNac a ha), alloc_kind_old (hc.allocNac a ha)⟩)
+      (by simp)
+    obtain ⟨c1, c2, c3, c4, c5, c6, c7, c8, c9, c10⟩ := h2
+    refine ⟨c1, c2, ?_, c4, c5, ?_, c7, c8, c9, by simp⟩
+    · intro a' h'; simp only [Option.some.injEq] at h'; subst h'; simp [Heap.alloc]
+    · intro a' h'; simp only [Option.some.injEq] at h'; subst h'; simp [Heap.alloc]
+  | produceFc c =>
     simp only [step]
     cases hds : s.o.dataset with
     | none => exact hc
     | some ds =>
       simp only
+      split
+      case isFalse => exact hc
       apply setDMIfMasses_coherent
       · refine ⟨?_, ?_, ?_, ?_, ?_, ?_, ?_, ?_⟩
         · intro a' h'; simp only [Option.some.injEq] at h'; subst h'; simp [Heap.alloc]
@@ -125,7 +140,13 @@ theorem coherent_step_partial (F : Fns) (hF : Lawful F) (s : St) (op : Op) (hc :
           exact ⟨r, hds.symm.trans r1, by rw [r2]; exact congrArg F.dispOf (alloc_cells_old (hc.allocDs r r1)).symm⟩
       · intro hm; exact hc.dmNone (Or.inr hm)
   | symmetrizeFc level => exact inPlace_coherent F s _ hc
-  | symmetrizeFcSpaceGroup => exact inPlace_coherent F s _ hc
+  | symmetrizeFcSpaceGroup =>
+    simp only [step]
+    split
+    · exact hc
+    · split
+      · exact hc
+      · exact inPlace_coherent F s _ hc
   | cutoff r => exact inPlace_coherent F s _ hc
   | setNac a =>
     simp only [step]
@@ -191,17 +212,25 @@ theorem coherent_step_partial (F : Fns) (hF : Lawful F) (s : St) (op : Op) (hc :
     | freq =>
       simp only [step]
       split
-      · next d m hd hm =>
-        apply coherent_touch F s d hc hd
-        intro g hg
-        simp only [Option.map_eq_some_iff] at hg
-        obtain ⟨g0, g1, g2⟩ := hg
-        have := hc.gv g0 g1
-        rw [hd] at this
-        have : g0.dm = d := (Option.some.inj this).symm
-        simp only [this, if_true] at g2
-        subst g2; rfl
+      · next d m hd hm => exact coherent_touch F s d hc hd (fun g hg => sync_gv_coherent hc hd g hg)
       · exact hc
+    | run dv =>
+      cases dv with
+      | mesh =>
+        simp only [step]
+        split
+        · next d m hd hm =>
+          exact (coherent_touch F s d hc hd (fun g hg => sync_gv_coherent hc hd g hg)).of_fields rfl rfl rfl rfl rfl rfl rfl
+        · exact hc
+      | band =>
+        simp only [step]
+        split
+        · next d m hd hm =>
+          exact (coherent_touch F s d hc hd (fun g hg => sync_gv_coherent hc hd g hg)).of_fields rfl rfl rfl rfl rfl rfl rfl
+        · exact hc
+      | tp => simp only [step]; split <;> first | exact hc | exact hc.of_fields rfl rfl rfl rfl rfl rfl rfl
+      | dos => simp only [step]; split <;> first | exact hc | exact hc.of_fields rfl rfl rfl rfl rfl rfl rfl
+    | get dv => exact hc
     | freqGV =>
       simp only [step]
       split
@@ -290,11 +319,62 @@ theorem coherent_reachable_partial (F : Fns) (hF : Lawful F) (m : Option Val) (o
     (hd : Disciplined F (St.init m) ops) : Coherent F (run F (St.init m) ops) :=
   coherent_run_partial F hF ops _ (coherent_init F m) hd
 
+/-- every stored result object (`mesh`, `band_structure`, `thermal_properties`, `total_dos`) was
+computed from the *current* parameters -/
+def DerivedCurrent (F : Fns) (s : St) : Prop :=
+  ∀ d p, s.o.derivedGet d = some p →
+    ∃ a m, s.o.fc = some a ∧ s.o.masses = some m ∧ p = specPhonons F false (s.h.cells a) (s.o.nac.map s.h.cells) m
+
 /-- in a coherent state every query is answered from the *current* parameters (the values the
 object shows through its getters) — whatever the constructor options -/
-theorem answers_from_state (F : Fns) (s : St) (q : Query) (hc : Coherent F s) :
+theorem answers_from_state (F : Fns) (s : St) (q : Query) (hc : Coherent F s)
+    (hdc : q.readsDerived = true → DerivedCurrent F s) :
     (step F s (.query q)).2.obs = specQuery F { abs s with fsf := false } q := by
+  have base : (s.o.dm = none ∧ (s.o.fc = none ∨ s.o.masses = none)) ∨
+      ∃ a m d, s.o.fc = some a ∧ s.o.masses = some m ∧ s.o.dm = some d ∧
+        phononsOf s.h (touchGonze s.h d) m = specPhonons F false (s.h.cells a) (s.o.nac.map s.h.cells) m := by
+    cases hfc : s.o.fc with
+    | none => exact Or.inl ⟨hc.dmNone (Or.inl hfc), Or.inl rfl⟩
+    | some a =>
+      cases hm : s.o.masses with
+      | none => exact Or.inl ⟨hc.dmNone (Or.inr hm), Or.inr rfl⟩
+      | some m =>
+        obtain ⟨d, hd, _⟩ := hc.dmSome a m hfc hm
+        exact Or.inr ⟨a, m, d, rfl, rfl, hd, phonons_eq_spec F s hc a m d hfc hm hd⟩
   cases q with
+  | run dv =>
+    cases dv with
+    | mesh =>
+      rcases base with ⟨hd, hn | hn⟩ | ⟨a, m, d, hfc, hm, hd, he⟩
+      · simp [step, specQuery, abs, hd, hn, Out.obs]
+      · simp [step, specQuery, abs, hd, hn, Out.obs]
+      · simp [step, specQuery, abs, hd, hfc, hm, he, Out.obs]
+    | band =>
+      rcases base with ⟨hd, hn | hn⟩ | ⟨a, m, d, hfc, hm, hd, he⟩
+      · simp [step, specQuery, abs, hd, hn, Out.obs]
+      · simp [step, specQuery, abs, hd, hn, Out.obs]
+      · simp [step, specQuery, abs, hd, hfc, hm, he, Out.obs]
+    | tp =>
+      simp only [step, specQuery, abs, Obj.derivedGet]
+      cases hme : s.o.mesh with
+      | none => simp [Out.obs]
+      | some p =>
+        obtain ⟨a, m, h1, h2, h3⟩ := hdc rfl .mesh p hme
+        simp [Out.obs, h1, h2, h3]
+    | dos =>
+      simp only [step, specQuery, abs, Obj.derivedGet]
+      cases hme : s.o.mesh with
+      | none => simp [Out.obs]
+      | some p =>
+        obtain ⟨a, m, h1, h2, h3⟩ := hdc rfl .mesh p hme
+        simp [Out.obs, h1, h2, h3]
+  | get dv =>
+    simp only [step, specQuery, abs]
+    cases hme : s.o.derivedGet dv with
+    | none => simp [Out.obs]
+    | some p =>
+      obtain ⟨a, m, h1, h2, h3⟩ := hdc rfl dv p hme
+      simp [Out.obs, h1, h2, h3]
   | freq =>
     simp only [step, specQuery, abs]
     cases hfc : s.o.fc with
@@ -342,24 +422,28 @@ theorem answers_from_state (F : Fns) (s : St) (q : Query) (hc : Coherent F s) :
 object given the current force constants, NAC parameters, masses and dataset (constructor
 options as documented, i.e. the deprecated `frequency_scale_factor` unset — see
 `refinement_fsf_counterexample`). -/
-theorem refinement (F : Fns) (s : St) (q : Query) (hc : Coherent F s) (hfsf : s.o.fsf = false) :
+theorem refinement (F : Fns) (s : St) (q : Query) (hc : Coherent F s) (hfsf : s.o.fsf = false)
+    (hdc : q.readsDerived = true → DerivedCurrent F s) :
     (step F s (.query q)).2.obs = specQuery F (abs s) q := by
-  rw [answers_from_state F s q hc]
+  rw [answers_from_state F s q hc hdc]
   congr 1
   simp [abs, hfsf]
 
 /-- **history independence**: two coherent states with the same current parameters answer
 every query alike — whatever their histories. -/
 theorem history_independent (F : Fns) (s₁ s₂ : St) (q : Query) (h₁ : Coherent F s₁) (h₂ : Coherent F s₂)
+    (d₁ : q.readsDerived = true → DerivedCurrent F s₁) (d₂ : q.readsDerived = true → DerivedCurrent F s₂)
     (he : abs s₁ = abs s₂) : (step F s₁ (.query q)).2.obs = (step F s₂ (.query q)).2.obs := by
-  rw [answers_from_state F s₁ q h₁, answers_from_state F s₂ q h₂, he]
+  rw [answers_from_state F s₁ q h₁ d₁, answers_from_state F s₂ q h₂ d₂, he]
 
 /-- … in particular any two disciplined histories (of any lengths) ending in the same parameters -/
 theorem history_independent_runs (F : Fns) (hF : Lawful F) (m₁ m₂ : Option Val) (ops₁ ops₂ : List Op) (q : Query)
+    (hq : q.readsDerived = false)
     (d₁ : Disciplined F (St.init m₁) ops₁) (d₂ : Disciplined F (St.init m₂) ops₂)
     (he : abs (run F (St.init m₁) ops₁) = abs (run F (St.init m₂) ops₂)) :
     (step F (run F (St.init m₁) ops₁) (.query q)).2.obs = (step F (run F (St.init m₂) ops₂) (.query q)).2.obs :=
-  history_independent F _ _ q (coherent_reachable_partial F hF m₁ ops₁ d₁) (coherent_reachable_partial F hF m₂ ops₂ d₂) he
+  history_independent F _ _ q (coherent_reachable_partial F hF m₁ ops₁ d₁) (coherent_reachable_partial F hF m₂ ops₂ d₂)
+    (fun h => by rw [hq] at h; cases h) (fun h => by rw [hq] at h; cases h) he
 
 
 /-! ### the full statements, and where the current code refutes them
@@ -373,7 +457,9 @@ are replayed on the real `Phonopy` object by `./check C15` (known findings). -/
 /-- concrete routines for the witnesses -/
 def Fex : Fns :=
   { sym := fun l v => v + 1000 * (l + 1), symSG := fun v => v + 7, cut := fun r v => v + 13 * r + 1,
-    produce := fun v => v + 500, symNac := fun v => v + 3, isWang := fun v => v % 2 == 1,
+    produce := fun c v => v + 500 + (if c then 50 else 0), symNac := fun v => v + 3, isWang := fun v => v % 2 == 1,
+    gen := fun k => 500 + k, hasForces := fun v => v % 1000 < 500 || 1000 ≤ v % 1000000,
+    isCompact := fun v => (v % 100) / 10 == 5,
     scale := fun v => 2 * v, setF := fun f v => v + 1000 * (f + 1), setE := fun e v => v + 1000000 * (e + 1),
     dispOf := fun v => v % 1000 }
 
@@ -405,7 +491,7 @@ theorem coherent_step_counterexample : ¬ FullCoherentStep := by
     | nil => intro s hc; exact hc
     | cons op ops ih => intro s hc; exact ih _ (h Fex s op hc)
   have hc := hr exStale _ (coherent_init Fex (some 1))
-  exact absurd (refinement Fex _ .freq hc (by decide)) (by decide)
+  exact absurd (refinement Fex _ .freq hc (by decide) (fun h => by cases h)) (by decide)
 
 /-- the witness is excluded by the discipline hypothesis of the `_partial` theorems, and only by it -/
 example : ¬ Disciplined Fex (St.init (some 1)) exStale := by decide
@@ -419,14 +505,14 @@ rebuild of the dynamical matrix therefore scales once more. -/
 
 /-- setting the masses to the value they already have changes no answer (option unset) -/
 theorem same_masses_noop (F : Fns) (hF : Lawful F) (s : St) (m : Val) (q : Query) (hc : Coherent F s)
-    (hm : s.o.masses = some m) (hfsf : s.o.fsf = false) :
+    (hm : s.o.masses = some m) (hfsf : s.o.fsf = false) (hq : q.readsDerived = false) :
     (step F (step F s (.setMasses m)).1 (.query q)).2.obs = (step F s (.query q)).2.obs := by
   have hc' := coherent_step_partial F hF s (.setMasses m) hc (by simp [MutatesReachable])
-  apply history_independent F _ _ q hc' hc
+  apply history_independent F _ _ q hc' hc (fun h => by rw [hq] at h; cases h) (fun h => by rw [hq] at h; cases h)
   simp only [step, setDMIfFc, fin]
   have ho : ({ s.o with masses := some m } : Obj) = s.o := by
     cases hso : s.o with
-    | mk fc nac ms ds dp dm gv fsf =>
+    | mk fc nac ms ds dp dm gv fsf me ba tp dos =>
       rw [hso] at hm
       cases hm; rfl
   rw [ho]
@@ -435,6 +521,7 @@ theorem same_masses_noop (F : Fns) (hF : Lawful F) (s : St) (m : Val) (q : Query
   · exact setDM_abs F s.h s.o hfsf hc.allocFc hc.allocNac hc.allocDs
 
 def FullSameMassesNoop : Prop := ∀ (F : Fns) (s : St) (m : Val) (q : Query), Coherent F s → s.o.masses = some m →
+  q.readsDerived = false →
   (step F (step F s (.setMasses m)).1 (.query q)).2.obs = (step F s (.query q)).2.obs
 
 /-- `Phonopy(…, frequency_scale_factor=f)`; `ph.force_constants = A`; `ph.masses = ph.masses`
@@ -442,7 +529,7 @@ scales the force constants a second time -/
 theorem same_masses_noop_fsf_counterexample : ¬ FullSameMassesNoop := by
   intro h
   have hc := coherent_run_partial Fex Fex_lawful [.newArr 5 true .fc, .setFc 0] _ (coherent_init Fex (some 1) true) (by decide)
-  exact absurd (h Fex _ 1 .freq hc (by decide)) (by decide)
+  exact absurd (h Fex _ 1 .freq hc (by decide) rfl) (by decide)
 
 def FullRefinementAnyOption : Prop := ∀ (F : Fns) (s : St) (q : Query), Coherent F s →
   (step F s (.query q)).2.obs = specQuery F (abs s) q
@@ -519,6 +606,8 @@ theorem no_alias_out_partial (F : Fns) (s : St) (q : Query) (h1 : q ≠ .getFc) 
   | getMasses => exact Out.noConfusion
   | getDataset => exact absurd rfl h3
   | getDisps => simp only [step]; (repeat' split) <;> exact Out.noConfusion
+  | run d => cases d <;> simp only [step] <;> (repeat' split) <;> exact Out.noConfusion
+  | get d => exact Out.noConfusion
 
 /-! #### copy() yields an independent object -/
 
@@ -536,12 +625,26 @@ theorem separate_objects_independent (F : Fns) (h : Heap) (o₁ o₂ : Obj) (ops
   have hc₂' : Coherent F ⟨(run F ⟨h, o₁⟩ ops).h, o₂⟩ :=
     hc₂.heap_congr hfr.2 (fun a ha => hcell a (Or.inl ha)) (fun a ha => hcell a (Or.inr (Or.inl ha)))
       (fun a ha => hcell a (Or.inr (Or.inr (Or.inl ha))))
-  rw [answers_from_state F _ q hc₂', answers_from_state F _ q hc₂]
-  congr 1
-  simp only [abs]
-  rw [map_cells_congr o₂.fc (fun a ha => (hcell a (Or.inl ha)).1),
-    map_cells_congr o₂.nac (fun a ha => (hcell a (Or.inr (Or.inl ha))).1),
-    map_cells_congr o₂.dataset (fun a ha => (hcell a (Or.inr (Or.inr (Or.inl ha)))).1)]
+  cases hq : q.readsDerived with
+  | true =>
+    -- stored result objects are read from the object alone
+    cases q with
+    | run d =>
+      cases d with
+      | mesh => simp [Query.readsDerived] at hq
+      | band => simp [Query.readsDerived] at hq
+      | tp => simp only [step]; cases o₂.mesh <;> rfl
+      | dos => simp only [step]; cases o₂.mesh <;> rfl
+    | get d => rfl
+    | _ => simp [Query.readsDerived] at hq
+  | false =>
+    rw [answers_from_state F _ q hc₂' (fun h => by rw [hq] at h; cases h),
+      answers_from_state F _ q hc₂ (fun h => by rw [hq] at h; cases h)]
+    congr 1
+    simp only [abs]
+    rw [map_cells_congr o₂.fc (fun a ha => (hcell a (Or.inl ha)).1),
+      map_cells_congr o₂.nac (fun a ha => (hcell a (Or.inr (Or.inl ha))).1),
+      map_cells_congr o₂.dataset (fun a ha => (hcell a (Or.inr (Or.inr (Or.inl ha)))).1)]
 
 /-- **copy() yields an independent object**: the copy reaches no array at all (it carries the
 structure and the masses only), so using the copy never changes an answer of the original, and
@@ -574,7 +677,7 @@ specification says. -/
 def exHist : List Op :=
   [.newArr 5 true .fc, .setFc 0, .query .freqGV, .symmetrizeFc 1, .newArr 3 true .nac, .setNac (some 1),
    .query .freq, .setMasses 9, .cutoff 2, .newArr 2 true .nac, .setNac (some 2), .query .freqGV,
-   .newArr 4 true .ds, .setDataset (some 3), .query .getDisps, .produceFc, .symmetrizeFcSpaceGroup, .query .freq]
+   .newArr 4 true .ds, .setDataset (some 3), .query .getDisps, .produceFc false, .symmetrizeFcSpaceGroup, .query .freq]
 
 example : Disciplined Fex (St.init (some 1)) exHist := by decide
 example : (run Fex (St.init (some 1)) exHist).o.dm.map (fun d => (d.cls, d.gonze)) = some (.gl, some 511) := by decide
